@@ -419,6 +419,9 @@ def run(ctx, rep):
         for kw in c.keywords:
             if kw.arg == "timeout" and (A.src(kw.value) == tv or "sync_request_timeout" in A.src(kw.value)):
                 okk = True
+    ram = K.request_api_model(ctx)
+    if "error" not in ram:
+        okk = ram["sync"]["expiry"] == [[30]]
     rep.ob("R15.6", "sync_request carries the connection's configured timeout", okk,
            "async_request(..., timeout=self._config['sync_request_timeout'])" if okk else
            "sync_request ignores the configured sync_request_timeout", fs.loc)
@@ -439,6 +442,9 @@ def run(ctx, rep):
         tvar = pops[0].targets[0].id if pops else None
         # tests are in positive form in the CFG: `timeout is not None` is the false edge of `timeout is None`
         okse = bool(pops) and c.get("%s is None" % tvar) is False and A.src(call.args[0]) == tvar
+    if "error" not in ram:
+        okse = ram["async", None]["expiry"] == [[]] and ram["async", 0]["expiry"] == [[0]] and ram["async", 5]["expiry"] == [[5]] and \
+            ram["async", "bogus"]["returned"] == ("raises", "TypeError") and ram["async", "bogus"]["issued"] == 0
     rep.ob("R15.6", "async_request applies the expiry iff a timeout was given", okse,
            "`if timeout is not None: res.set_expiry(timeout)`" if okse else
            "async_request does not apply the given timeout exactly when one was given (`is not None`): a timeout of 0 must expire at once",
